@@ -98,6 +98,63 @@ def helper_table(prog, f, mode_arg_proj=(), value_arg=2):
     return out
 
 
+M10_FILES = ("minijinja/src/filters.rs", "minijinja/src/functions.rs", "minijinja/src/tests.rs")
+M10_ITER = ("minijinja::value::Value::try_iter", "minijinja::value::object::DynObject::try_iter",
+            "minijinja::value::object::DynObject::try_iter_pairs")
+M10_PRINT = ("minijinja::utils::write_escaped", "minijinja::vm::state::State::format")
+M10_ASSERT = ("minijinja::utils::UndefinedBehavior::assert_value_not_undefined", "minijinja::utils::UndefinedBehavior::try_iter",
+              "minijinja::utils::UndefinedBehavior::assert_iterable")
+M10_REVIEWED = {
+    "minijinja::filters::builtins::dictsort": "fails with InvalidOperation for every non-map operand, undefined included, in all modes",
+    "minijinja::filters::builtins::first": "fails with InvalidOperation for an undefined operand in all modes",
+    "minijinja::filters::builtins::last": "iterates the result of Value::reverse, which rejects undefined under the strict modes",
+    "minijinja::filters::builtins::items": "fails with InvalidOperation for every non-map operand in all modes",
+    "minijinja::filters::builtins::urlencode": "iterates a value already matched as a map",
+    "minijinja::tests::builtins::is_iterable": "a type test: `is iterable` never fails",
+    "minijinja::functions::builtins::dict": "`dict(undefined)` is documented to give the empty dict (explicit Undefined arm)",
+    "minijinja::functions::builtins::namespace": "same contract as dict(): only a map operand is looked into",
+}
+
+
+def check_builtin_operands(ctx, prog, tag):
+    """M10: "at every site of the language printing and iterating an undefined fail under Strict and SemiStrict".  A
+    builtin filter / function that receives its operand as a raw `Value` (no conversion to a concrete type, which would
+    reject undefined) and iterates or prints it must first pass it to one of the mode helpers
+    (`assert_value_not_undefined`, `UndefinedBehavior::try_iter`), in the function itself or - for closures - in the
+    function that builds them; otherwise `{{ missing|join(',') }}` or `{{ missing|e }}` render silently under Strict."""
+    n = 0
+    for f in sorted(prog.fns.values(), key=lambda x: x.path):
+        if not f.loc.f.endswith(M10_FILES):
+            continue
+        root = prog.fns.get(f.root) if f.root else f
+        if root is None:
+            root = f
+        asserted = set()
+        for g in [root] + prog.closures_of(root.path):
+            for c in g.calls():
+                if c.name in M10_ASSERT:
+                    asserted.add(g.path)
+        for c in f.calls():
+            kind = "iterates" if c.name in M10_ITER else ("prints" if c.name in M10_PRINT else None)
+            if kind is None or not c.args:
+                continue
+            arg = c.args[0] if kind == "iterates" else c.args[-1]
+            if "c" in arg:
+                continue
+            os_ = flow.origins(f, arg, through_calls=flow._xpass)
+            # the operand is a raw parameter of the filter (or a capture of one in a closure)
+            if not any(o.kind == "arg" for o in os_):
+                continue
+            n += 1
+            ok = bool(asserted)
+            reason = M10_REVIEWED.get(root.path)
+            ctx.ob("C12.M10.builtin-%s-its-operand-through-the-mode" % kind, tag + root.path.split("::")[-1], ok or reason is not None,
+                   ("reviewed: " + reason) if (reason and not ok) else
+                   "%s %s a raw `Value` operand without asking the undefined behaviour first: an undefined operand is "
+                   "processed silently under Strict / SemiStrict" % (root.path.split("::")[-1], kind), f.where(c.bb))
+    ctx.floor("C12.M10 builtin sites iterating / printing a raw operand" + tag, n, 8)
+
+
 def run(ctx):
     ctx.explain("C12: finite-domain abstract interpretation of the mode-dependent decision functions over "
                 "(4 modes x {undefined, silent undefined, defined}) extracted from MIR, checked for upward-closed "
@@ -114,6 +171,8 @@ def run(ctx):
         # by the interpreter only
         from .c04 import check_folder_never_undefined
         check_folder_never_undefined(ctx, prog, "C12.M9.constant-folding-never-yields-undefined", tag)
+        if cname == "MAX":
+            check_builtin_operands(ctx, prog, tag)
         # ---- M1: readers of the discriminant
         readers = set()
         for f in prog.fns.values():
@@ -258,6 +317,23 @@ def run(ctx):
                    "in the %s handler a failed lookup must pass handle_undefined(x.is_undefined()) for the value x that was "
                    "looked into before pushing a result (%s): otherwise `undefined.attr` is silently undefined in Lenient "
                    "/ strict modes, or the wrong operand decides" % (v, why8), ev.loc)
+        # M8b: slicing looks into a value like a subscript does: in the Slice handler the slice operation runs only on the
+        # side on which the sliced value is not undefined, and the undefined side asks handle_undefined (so it fails in
+        # every mode but Chainable, not just under Strict)
+        reg_s = regs.get("Slice", set())
+        if reg_s:
+            sl = [c for c in arms.calls_in(ev, reg_s) if c.name.endswith("ops::slice")]
+            hu_s = [c for c in arms.calls_in(ev, reg_s) if c.name == HU]
+            ok_s = False
+            for c in sl:
+                recv = {o.key() for o in flow.origins(ev, c.args[0], within=reg_s)}
+                for g in flow.guard_facts(prog, ev, c.bb):
+                    if g[0] == "call" and g[1].endswith("Value::is_undefined") and g[2] is False and (
+                            {o.key() for o in flow.origins(ev, g[3].args[0], within=reg_s)} & recv):
+                        ok_s = bool(hu_s)
+            ctx.ob("C12.M8.failed-lookup-asks-the-mode-about-the-container", tag + "eval_impl|Slice", ok_s,
+                   "the Slice handler slices an undefined value unless the mode is Strict (`missing[1:]` is `[]` under SemiStrict "
+                   "and Lenient): like item access it has to ask handle_undefined about the sliced value", ev.loc)
         # ---- M3
         n3 = 0
         for f in prog.fns.values():
